@@ -302,7 +302,7 @@ def classify(runner, monitors, episode):
     return nontrivial, classes
 
 
-CHECK = EpisodeCheck(PROPERTY_ID, st.one_of(episode_st(P), episode_st(PLate), episode_st(PDist), episode_st(PSweepLate), episode_st(PSweepEarly)), make_monitors, evaluate, classify, quick=1200, thorough=16000,
+CHECK = EpisodeCheck(PROPERTY_ID, st.one_of(episode_st(P), episode_st(PLate), episode_st(PDist), episode_st(PSweepLate), episode_st(PSweepEarly)), make_monitors, evaluate, classify, quick=2000, thorough=20000,
                      suffix_kwargs={'ticks': 4, 'boot_dead': False})
 
 
